@@ -238,7 +238,7 @@ def port_pressure(f, C):
     _, _, m = f.one_skel(r"\{:\.(\d+)f\}\{\} ", "fallback format")
     C["fallbackDecimals"] = int(m.group(1))
     sk = [s for _, _, s in f.roots]
-    builder = [s for s in sk if s in ("{{:{}.{}f}}", "{:{}.{}f}")]
+    builder = [s for s in sk if s in ("{{:{}.{}f}}", "{{:{:d}.{:d}f}}", "{:{}.{}f}")]
     if len(builder) != 1:
         f.fail("cell format `{:<left>.<prec>f}` not found: %r" % sk)
     if sk.count("{} ") < 1 or sk.count("{} {} ") < 2:
@@ -295,7 +295,7 @@ def port_number_line(f, C):
     C["headerGroupSep"] = ord(f.char(arg, "group separator of the header"))
     widths = []
     for n, t, s in f.roots:
-        if s == "{{:^{}s}}":
+        if s in ("{{:^{}s}}", "{{:^{:d}s}}"):
             widths.append(A.fields_of(t)[0].expr)
         else:
             for fld in A.fields_of(t):
@@ -378,7 +378,7 @@ def combined_view(f, C, flags, lcdcp_sep):
         f.fail("headline is not centred over len(<separator>)")
     sep_name = wd.args[0].id
     # the statements that build that separator: top-level statements on it before the width is taken
-    stop = head[1]
+    stop = wd
     while id(stop) in f.parents and f.parents[id(stop)] is not f.node:
         stop = f.parents[id(stop)]
     stmts = []
